@@ -17,5 +17,14 @@ fi
 rm -f bin.build.log
 extra=()
 if [ "${1:-}" = "--only" ]; then extra=(-only "$2"); fi
-exec bin/frugalvet -repo "${FRUGAL_REPO:-/repo}" -prop "$prop" -tier "$tier" \
+bin/frugalvet -repo "${FRUGAL_REPO:-/repo}" -prop "$prop" -tier "$tier" \
   -evidence "${FRUGAL_EVIDENCE_DIR:-evidence}/$prop.json" -known known-findings.txt "${extra[@]}"
+rc=$?
+if [ $rc -ne 0 ] && [ $rc -ne 1 ]; then
+  # the analyser itself died (a runtime fault cannot be turned into a report from inside): undecided, which fails
+  mkdir -p evidence/replay
+  echo '{"rule":"ANALYSIS-ERROR","key":"analyser-crash","verdict":"UNDECIDED","reason":"the analyser terminated abnormally (exit status '$rc')"}' > "evidence/replay/$prop-crash.json"
+  echo "VIOLATION property=$prop replay=evidence/replay/$prop-crash.json"
+  exit 1
+fi
+exit $rc
